@@ -37,7 +37,7 @@ func checkC18(p *Program, r *Result) {
 		"(C18.d) each converter builds the Message with LogTime and PublishTime from the same converted time value and Data from the record payload."
 	r.NotDecided = []string{"message-for-message fidelity, ordering and the text of assembled schemas (run-time)", "behaviour of go-sqlite3 and the lz4/bzip2 decoders"}
 	r.rule("C18.a", "no process-exit / panic call reachable from the converters", 10)
-	r.rule("C18.b", "bag-derived integers are bounded before slice bounds, indexes and allocation sizes", 8)
+	r.rule("C18.b", "bag-derived integers are bounded before slice bounds, indexes and allocation sizes", 3)
 	r.rule("C18.c", "read, writer, callback and database-iteration errors are consulted and propagated", 30)
 	r.rule("C18.d", "Message literal: LogTime and PublishTime from the same value", 2)
 	r.rule("C18.m", "fixed-offset access to a header value is preceded by a minimum-length test", 4)
